@@ -31,7 +31,7 @@ def build_trace(seed, n_chains, clustered, tmp, iters=6, n_mut=None, particles=4
     inputs.write_table(rows, in_file)
     cluster_file = None
     if clustered:
-        crow, _ = inputs.make_clusters(rng, rows, 3, textual_ids=seed % 3 == 1)
+        crow, _ = inputs.make_clusters(rng, rows, 3)
         cluster_file = os.path.join(tmp, "cl_%d.tsv" % n_chains)
         inputs.write_table(crow, cluster_file)
         if info is not None:
